@@ -80,7 +80,11 @@ impl StdioInterpreter {
         let mut analyzer = SourceFileAnalyzer::analyze(code);
         let messages = analyzer.take_messages();
         let lines = analyzer.take_source_file_lines();
-        self.interpreter = analyzer.into_interpreter();
+        // The interpreter built from the file replaces the one configured from
+        // the command line, so carry its configuration over.
+        let configured = std::mem::replace(&mut self.interpreter, analyzer.into_interpreter());
+        self.interpreter.enable_warnings = configured.enable_warnings;
+        self.interpreter.enable_tracing = configured.enable_tracing;
         if self.args.skip_check {
             return Ok(());
         }
